@@ -234,6 +234,64 @@ def monitor_cookie_scope(ctx, infile, implfile):
     return stats, len(sigs)
 
 
+def monitor_server_upstream(ctx, pre):
+    """From the property text: "An instance in SSO-server mode ... never proxies to an upstream". Read off `wwh ssowild`: requests
+    for everything an SSO server does not own (paths x methods x Sec-Fetch-Mode x Sec-Fetch-Dest x Accept x with / without a valid
+    session cookie) against real SSO-server deployments whose upstream is a recording transport:
+      (a) the upstream sees NOTHING, whatever the request looks like;
+      (b) the answer is the redirect to the configured default URL (GET / : to the server's own login endpoint; a method the router
+          does not know: 405) - an SSO server has nothing else to offer there.
+    Control of the observation point: the same requests at a standalone instance DO reach the recording upstream."""
+    st = {"sso_server_requests": 0, "with_fetch_metadata_not_a_navigation": 0, "with_valid_session_cookie": 0, "methods": set(), "paths": set(),
+          "control_requests_reaching_upstream": 0, "control_requests": 0}
+    sigs = set()
+    with open(pre + ".in") as fi, open(pre + ".impl") as fo, open(pre + ".obs") as fb:
+        for li, lo, lb in zip(fi, fo, fb):
+            t = li.split()
+            mode, default, method, path, hmode, hdest = int(t[1]), unhex(t[3]), unhex(t[4]), unhex(t[6]), unhex(t[7]), unhex(t[8])
+            accepts = [] if t[9] == "." else [unhex(x) for x in t[9].split(",")]
+            session = t[10] == "1"
+            o = lo.split()
+            status, loc, hits = int(o[1]), unhex(o[2]), int(o[3])
+            b = lb.split()
+            if mode != 1:
+                st["control_requests"] += 1
+                st["control_requests_reaching_upstream"] += hits > 0
+                continue
+            st["sso_server_requests"] += 1
+            st["with_valid_session_cookie"] += session
+            st["methods"].add(method)
+            st["paths"].add(path)
+            nonnav = bool(hmode and hdest) and not (method == "GET" and hmode == "navigate" and hdest == "document")
+            st["with_fetch_metadata_not_a_navigation"] += nonnav
+            sigs.add((method, path, hmode, hdest, tuple(accepts), session))
+            case = {"deployment": {"mode": "sso-server", "name": b[0], "session_store": b[2].split("=")[1], "session.forward-auth": b[3].endswith("1"),
+                                   "ingresses": [unhex(x.split("/")[0]) + unhex(x.split("/")[1]) for x in t[2].split(",")],
+                                   "sso.server-default-redirect-url": default},
+                    "request": {"method": method, "path": path, "Sec-Fetch-Mode": hmode or None, "Sec-Fetch-Dest": hdest or None, "Accept": accepts,
+                                "carries_valid_session_cookie": session},
+                    "answer": {"status": status, "location": loc or None},
+                    "requests_seen_by_the_upstream": hits, "upstream_request_carried_a_bearer_token": b[1].endswith("1"),
+                    "input": li.strip(), "impl": lo.strip()}
+            if hits > 0:
+                if b[1].endswith("1"):
+                    ctx.violation("c16-server-request-reaches-upstream-with-token", "an instance in SSO-server mode proxied a request to the upstream "
+                                  "with the bearer token of the session", case)
+                else:
+                    ctx.violation("c16-server-request-reaches-upstream", "an instance in SSO-server mode proxied a request to the upstream", case)
+            elif method == "BREW":
+                if status != 405:
+                    ctx.violation("c16-server-wildcard-not-redirect", "SSO server: unknown method not answered 405", case)
+            elif method == "GET" and path == "/":
+                if status != 302 or loc != "/oauth2/login":
+                    ctx.violation("c16-server-wildcard-not-redirect", "SSO server: GET / not answered with the redirect to its login endpoint", case)
+            elif status != 302 or loc != default:
+                ctx.violation("c16-server-wildcard-not-redirect", "SSO server: a request outside its own endpoints was not answered with the "
+                              "redirect to the configured default URL", case)
+    st["methods"], st["paths"] = sorted(st["methods"]), len(st["paths"])
+    return st, len(sigs)
+
+
 PROXY_INGRESS = ("http", "proxy.wonderwall")
 SERVER_URL = ("http", "wonderwall")
 FORWARDED = {"/oauth2/session", "/oauth2/session/refresh", "/oauth2/session/forwardauth", "/oauth2/logout/local", "/oauth2/logout/frontchannel"}
@@ -402,6 +460,22 @@ def run(ctx):
         ctx.broken.append({"kind": "harness", "name": "ssocookies control: no Set-Cookie header / no answer to a request carrying a counter / no sibling comparison observed", "first": cst})
     nt += cnt
 
+    # clause 3, "never proxies to an upstream": everything an SSO server does not own, x methods x Sec-Fetch / Accept lattice x session
+    prew = ctx.path("ssowild")
+    out, dt = vf.run_driver(["ssowild", "-out", prew, "-seed", str(ctx.seed), "-tier", ctx.tier])
+    ctx.timings["ssowild"] = round(dt, 2)
+    ctx.extra["ssowild_driver_counts"] = [l for l in out.split("\n") if l.startswith("ssowild: ")]
+    ctx.correspondence("ssowild: real router + real handler.SSOServer (over the real Standalone with its reverse proxy; recording upstream) for requests "
+                       "outside the own endpoints: answer kind, status, Location, requests seen by the upstream vs Model/SsoWild.v on Model/Router.v",
+                       prew + ".in", prew + ".impl")
+    wst, wnt = monitor_server_upstream(ctx, prew)
+    ctx.extra["server_upstream_monitor"] = wst
+    if wst["control_requests"] == 0 or wst["control_requests_reaching_upstream"] != wst["control_requests"] or \
+            wst["with_fetch_metadata_not_a_navigation"] == 0 or wst["with_valid_session_cookie"] == 0:
+        ctx.broken.append({"kind": "harness", "name": "ssowild control: the recording upstream did not see every proxied request of the standalone control "
+                           "(observation point blind) / no non-navigational or session-carrying request", "first": wst})
+    nt += wnt
+
     # clause 1 and the wildcard route on the session machine (server and proxy share one wrapped store)
     _mach.run_modes(ctx, ["history"], ["c16"])
     mrule = ctx.rule
@@ -425,6 +499,9 @@ def run(ctx):
                 "+ distinct proxy request shapes + distinct machine histories. ssoproxy: random histories of proxy requests (every endpoint x method x redirect/locale "
                 "query x cookie class) interleaved with writing server requests and clock advances, on one Redis store. machine-sso: machine scenarios with sso on, "
                 "mostly proxy requests, faults, cancellations, proxy steps interleaved with a writing server request. "
+                "ssowild (never proxies): SSO-server deployments {ingress at the root, nested ingresses, Redis store with forward-auth; three default URLs} x paths outside the own endpoints "
+                "{/, /favicon.ico, /api/..., deep paths, look-alikes of /oauth2, random segment paths} x {GET, HEAD, POST, PUT, DELETE, OPTIONS, PATCH, unknown method} x Sec-Fetch-Mode {absent, navigate, cors, same-origin, no-cors} "
+                "x Sec-Fetch-Dest {absent, document, empty, iframe, image} x Accept {text/html, json, list, absent} x {no session, valid session cookie}; standalone control. "
                 "ssocookies (cookie scope): SSO-server configurations {same-site Lax/None/Strict x domain with/without leading dot x legacy cookie x rate limit, ingress at the root / below a path / "
                 "nested on one host, localhost} x {complete flows, error paths, random histories, the same through a real SSO proxy in front of an application, "
                 "4 consecutive failures of login / callback / logout / local logout by every cause (provider 4xx, 5xx for the retry budget, undecodable, hanging until "
